@@ -329,8 +329,15 @@ func reportViolation(eng core.Engine, o WorkerOpts, run, seed uint64, res core.R
 		}
 		return nil, fmt.Sprintf("run %d (seed %d): violation %q did not reproduce from its own tape (got %s): simulator nondeterminism, not reported as a violation", run, seed, want, got)
 	}
+	var lastLabels []string
+	shrink.Labels = func() []string { return lastLabels }
+	defer func() { shrink.Labels = nil }()
 	test := func(vals []uint64) (bool, int) {
 		r, t := ReplayVals(eng, vals, true)
+		lastLabels = lastLabels[:0]
+		for _, e := range t.Rec {
+			lastLabels = append(lastLabels, e.Label)
+		}
 		used := t.Used()
 		if t.Overrun > 0 {
 			used = len(vals)
